@@ -80,7 +80,7 @@ def episodes(rng, keys, n_episodes, gaps, settle):
 
 def family(tier):
     """(name, (desc, params), mc options).  `depth`: only schedules of at most that many steps (the full graph of the
-    chords-v2 tables with a third key is in the millions because of the known findings); without it: the full graph."""
+    chords-v2 tables with a third key is too large for the time budget); without it: the full graph."""
     v1_pair = lambda T: make_v1(T, "ab", [("a", "b")])
     v1_plain = lambda T, red=1: make_v1(T, "ab", [("a", "b")], plain="d", red=red)
     v1_sub = lambda T: make_v1(T, "abc", [("a", "b"), ("a", "b", "c")])          # sub-chord + superset; (a c), (b c) undefined
@@ -96,10 +96,10 @@ def family(tier):
             ("v1_plain_T2", v1_plain(2), {"qmax": 2}),
             ("v1_sub_T2", v1_sub(2), {"qmax": 2, "depth": 16}),
             ("v2_first_T2", v2_first(2), {"qmax": 2}),
-            ("v2_uni_T2", v2_uni(2), {"qmax": 2, "depth": 32}),
-            ("v2_pair_T2", v2_pair(2), {"qmax": 2, "depth": 17}),
-            ("v2_sub_T2", v2_sub(2), {"qmax": 2, "depth": 18}),
-            ("v2_layer_T2", v2_layer(2), {"qmax": 2, "depth": 16}),
+            ("v2_uni_T2", v2_uni(2), {"qmax": 2}),
+            ("v2_pair_T2", v2_pair(2), {"qmax": 2, "depth": 22}),
+            ("v2_sub_T2", v2_sub(2), {"qmax": 2, "depth": 22}),
+            ("v2_layer_T2", v2_layer(2), {"qmax": 2, "depth": 20}),
         ]
     return [
         ("v1_pair_T3", v1_pair(3), {"qmax": 3}),
@@ -112,10 +112,10 @@ def family(tier):
         ("v2_first_T2", v2_first(2), {"qmax": 3}),
         ("v2_first_T3", v2_first(3), {"qmax": 2}),
         ("v2_uni_T2", v2_uni(2), {"qmax": 2}),
-        ("v2_uni_T3", v2_uni(3), {"qmax": 2, "depth": 40}),
-        ("v2_pair_T2", v2_pair(2), {"qmax": 2, "depth": 25}),
-        ("v2_sub_T2", v2_sub(2), {"qmax": 2, "depth": 25}),
-        ("v2_layer_T2", v2_layer(2), {"qmax": 2, "depth": 23}),
+        ("v2_uni_T3", v2_uni(3), {"qmax": 2}),
+        ("v2_pair_T2", v2_pair(2), {"qmax": 2, "depth": 30}),
+        ("v2_sub_T2", v2_sub(2), {"qmax": 2, "depth": 30}),
+        ("v2_layer_T2", v2_layer(2), {"qmax": 2, "depth": 27}),
         # overlapping chords with different release rules; an undefined superset (a b c)
         ("v2_ovl_T2", make_v2([(("a", "b"), 2, "all", [], None), (("b", "c"), 2, "first", [], None)], "abc"),
          {"qmax": 2, "depth": 22}),
@@ -141,9 +141,9 @@ def mc_instance(name, desc, params, opts):
         inst["universe"] = keys + [0]          # TRIGGER_TAPHOLD_COORD (0, 0) is dequeued like a key
         inst["view"] = "<<CvCanonK(K), phys, mon>>"
         inst["extra_guard"] = "/\\ Len(K.L.chv2.q) + Len(K.L.queue) < QMax"
-        # Known finding (release during the cool-down): a chord whose participants are all up, with no release of
-        # them left to process, stays active for ever.  Such states are reported as witnesses (replayed on the code and
-        # judged by the monitor there) and not expanded further - they only multiply the graph.
+        # Model sanity probe: a chord whose participants are all up, with no release of them left to process, must not
+        # stay active (this was the finding repaired by 6c7bac1).  Such a state would be reported as a witness and
+        # judged on the code by the monitor; it is not expanded further.
         inst["extra_defs"] = (
             "Chv2Leak == \\E i \\in DOMAIN K.L.chv2.ach : K.L.chv2.ach[i].st = \"R\" /\\ K.L.chv2.ach[i].ks \\cap phys = {}\n"
             "              /\\ ~\\E j \\in DOMAIN K.L.chv2.q : ~K.L.chv2.q[j].p /\\ K.L.chv2.q[j].y \\in K.L.chv2.ach[i].ks\n"
